@@ -29,11 +29,11 @@ pub struct Case {
     pub ops: Vec<Op>,
 }
 
-pub const CAPS: [usize; 7] = [1, 2, 3, 4, 7, 10, 16];
+pub const CAPS: [usize; 9] = [1, 2, 3, 4, 7, 10, 16, 130, 1030];
 
 /// index selector: raw → bit index, biased to word boundaries
 fn index(x: u16, bits: usize) -> usize {
-    let special = [0usize, 1, 62, 63, 64, 65, 126, 127, 128, 129, bits - 1, bits - 2, bits / 2, bits.saturating_sub(64), bits.saturating_sub(65)];
+    let special = [0usize, 1, 62, 63, 64, 65, 126, 127, 128, 129, bits - 1, bits - 2, bits / 2, bits.saturating_sub(64), bits.saturating_sub(65), 255, 256, 8191, 8192, 8193, 8192 + 63, 16384, 65535, 65536, 65537];
     if x & 1 == 1 {
         let s = special[(x as usize >> 1) % special.len()];
         if s < bits {
@@ -203,7 +203,9 @@ pub fn run<const N: usize>(c: &Case) -> CaseResult {
 }
 
 pub fn run_case(c: &Case) -> CaseResult {
-    match c.cap % 7 {
+    match c.cap % 9 {
+        7 => run::<130>(c),
+        8 => run::<1030>(c),
         0 => run::<1>(c),
         1 => run::<2>(c),
         2 => run::<3>(c),
@@ -233,7 +235,7 @@ pub fn op() -> impl Strategy<Value = Op> {
 pub fn case(cap: Option<u8>, max_ops: usize) -> impl Strategy<Value = Case> {
     let c = match cap {
         Some(c) => Just(c).boxed(),
-        None => (0u8..7).boxed(),
+        None => (0u8..9).boxed(),
     };
     (c, prop::collection::vec(op(), 0..max_ops)).prop_map(|(cap, ops)| Case { cap, ops })
 }
